@@ -292,13 +292,23 @@ def c08(lines, out):
     v += handler_running(tr)
     last = {}
     stashers = set(r.op.split()[1] for r in tr.recs if r.op.split()[0] == 'stash' and r.result == '0')
+    # the order in which payloads were sent (records are in script order, which is the order of the calls)
+    sent_at = {}
+    for r in tr.recs:
+        t = r.op.split()
+        if t[0] in ('tell', 'pub') and r.result == '0' and len(t) > 3:
+            sent_at.setdefault(t[3], len(sent_at) + 1)
+        if t[0] == 'burst' and isint(r.result) and len(t) > 5:
+            for i in range(int(t[5])):
+                sent_at.setdefault('p%d' % (int(t[3][1:]) + i), len(sent_at) + 1)
     for (h, topic, sender, p, sys, ud, r) in deliveries(tr):
-        if sys == '1' or h in stashers:
+        if sys == '1' or h in stashers or p not in sent_at:
             continue
-        n = int(p[1:])
-        if n < last.get(h, 0):
-            v.append(('order', 'module %s received payload %s after p%d, which was sent later' % (h, p, last[h])))
-        last[h] = max(last.get(h, 0), n)
+        n = sent_at[p]
+        if n < last.get(h, (0, None))[0]:
+            v.append(('order', 'module %s received payload %s after %s, which was sent later' % (h, p, last[h][1])))
+        if n > last.get(h, (0, None))[0]:
+            last[h] = (n, p)
     # "a poison pill stops its recipient only after every message sent to it earlier has been delivered": when the loop itself
     # (not an explicit stop / deregistration) runs the stop callback of a module with an accepted pill pending, every payload
     # told to it before the pill — while it was RUNNING, and not stashed away by it — must have been handed to its handler
